@@ -133,6 +133,10 @@ func (l *callLog) String() string {
 // answer into a library timeout (which would look like an unreachable protocol).
 const libTimeout = 60 * time.Second
 
+// negWait bounds the wait for the connection to shut down after a negative
+// probe (expected: well under a millisecond of library work).
+const negWait = 15 * time.Second
+
 // callbackOptions gives every mini-protocol of every mode a configuration with
 // counting callbacks (a responder needs them to answer at all; an initiator's
 // callbacks must never fire on an unsolicited message).
@@ -571,9 +575,37 @@ func TestC17(t *testing.T) {
 			fail("harness:send", err.Error())
 			return
 		}
-		errs, errClosed := waitErrClosed(conn, longWait)
-		closed = true
-		peerSawClose := peer.WaitClosed(longWait)
+		// wait until the connection has shut down; stop early when the probe
+		// visibly got through (a callback fired or an answer was written)
+		var errs []error
+		errClosed, leaked := false, false
+		deadline := time.After(negWait)
+		tick := time.NewTicker(2 * time.Millisecond)
+	waitLoop:
+		for {
+			select {
+			case e, ok := <-conn.ErrorChan():
+				if !ok {
+					errClosed = true
+					break waitLoop
+				}
+				errs = append(errs, e)
+			case <-tick.C:
+				if log.total() != beforeCalls || len(peer.Stream(pick.p.ID, !pick.response)) != replyDirBefore {
+					leaked = true
+					break waitLoop
+				}
+			case <-deadline:
+				break waitLoop
+			}
+		}
+		tick.Stop()
+		peerSawClose := false
+		if errClosed {
+			closed = true
+			peerSawClose = peer.WaitClosed(negWait)
+		}
+		_ = leaked
 		caseObj["probe"] = fmt.Sprintf("%s proto=%s(%d) response-bit=%v payload=%x", pick.kind, pick.p.Name, pick.p.ID, pick.response, payload)
 		var es []string
 		for _, e := range errs {
@@ -584,14 +616,13 @@ func TestC17(t *testing.T) {
 		rec.NonTrivial(fmt.Sprintf("%s|%s|%d|%v", cs, pick.kind, pick.p.ID, pick.response), caseObj)
 		probeKey := fmt.Sprintf("%s:%s", pick.kind, pick.p.Name)
 		switch {
-		case !errClosed || !peerSawClose:
-			caseObj["goroutines"] = goroutineDump()
-			fail("gate:"+probeKey+":connection-not-closed", fmt.Sprintf("after the probe the connection stayed open (error channel closed=%v, peer saw close=%v)", errClosed, peerSawClose))
-			_, _ = closeConn(conn)
 		case log.total() != beforeCalls:
 			fail("gate:"+probeKey+":callback-fired", fmt.Sprintf("a callback fired on the probe (%s)", log.String()))
 		case len(peer.Stream(pick.p.ID, !pick.response)) != replyDirBefore:
 			fail("gate:"+probeKey+":answered", fmt.Sprintf("the probe was answered with %x", peer.Stream(pick.p.ID, !pick.response)[replyDirBefore:]))
+		case !errClosed || !peerSawClose:
+			caseObj["goroutines"] = goroutineDump()
+			fail("gate:"+probeKey+":connection-not-closed", fmt.Sprintf("after the probe the connection stayed open (error channel closed=%v, peer saw close=%v)", errClosed, peerSawClose))
 		case len(errs) == 0:
 			fail("gate:"+probeKey+":closed-without-error", "the connection closed but reported no error")
 		}
